@@ -176,6 +176,29 @@ func c19(c *core.Ctx) {
 			c.Missing("template data struct (with a StreamIndex field)")
 		}
 		c.Check(feed["ServiceName"] == "GetFullyQualifiedName" && feed["MethodName"] == "GetName", gk+":data:names", gen.Pos(), "ServiceName ← sd.GetFullyQualifiedName(), MethodName ← md.GetName()", fmt.Sprintf("the path components are fed from %q and %q (want the fully-qualified service name and the method's proto name)", feed["ServiceName"], feed["MethodName"]))
+		// the stubs and the registration function of one service name the SAME descriptor variable: both names are
+		// computed by the same function (the legacy_desc_names option changes both or neither)
+		{
+			regFeed := ""
+			for _, pc := range core.CallsIn(gen, func(call *ssa.Call, ci core.CallInfo) bool {
+				for _, a := range call.Call.Args {
+					if f, ok := core.ConstString(a); ok && strings.Contains(f, "RegisterService(&%s") {
+						return true
+					}
+				}
+				return false
+			}) {
+				if args, ok := core.VariadicArgs(pc.Call.Args[len(pc.Call.Args)-1]); ok && len(args) >= 1 {
+					regFeed = describeFeed(args[0])
+				}
+			}
+			if regFeed == "" {
+				c.Undecided(gk+":data:desc-name-agrees", gen.Pos(), "cannot find the descriptor name given to the registration function's RegisterService(&%%s, srv)")
+			} else {
+				c.Check(feed["ServiceDesc"] == regFeed, gk+":data:desc-name-agrees", gen.Pos(), "stubs and registration function get the descriptor variable name from the same computation ("+regFeed+")",
+					fmt.Sprintf("the stubs' descriptor variable name is computed by %q but the registration function's by %q: with the option that changes one of them (legacy_desc_names) the stubs index into a variable that does not exist", feed["ServiceDesc"], regFeed))
+			}
+		}
 		c.Check(strings.Contains(feed["RequestType"], "GetOutputType"), gk+":data:output-type", gen.Pos(), "the type allocated by the unary stub is the method's OUTPUT type", fmt.Sprintf("the message type allocated for the unary response is fed from %q, not from the method's output type", feed["RequestType"]))
 		// each service gets its registration function: the emission of RegisterHandler<Svc> is executed in every
 		// iteration of the per-service loop (no fast path or option skips it)
